@@ -22,7 +22,8 @@ impl Interpreter {
 
     pub(crate) fn match_script_bit(&mut self, bit: &ScriptBit) -> Result<State, InterpreterError> {
         Ok(match bit {
-            ScriptBit::OpCode(o) => match Interpreter::match_opcode(self.script_index, o, &mut self.state.clone(), self.tx_script.clone()) {
+            // OP_CODESEPARATOR records its position among the elements of the original script: branch elements spliced in so far do not count
+            ScriptBit::OpCode(o) => match Interpreter::match_opcode(self.script_index.saturating_sub(self.spliced_elements), o, &mut self.state.clone(), self.tx_script.clone()) {
                 Ok(mut next_state) => {
                     next_state.executed_opcodes.push(*o);
                     next_state
@@ -55,13 +56,9 @@ impl Interpreter {
                     _ => predicate,
                 };
 
-                if run_first_branch {
-                    let _removed: Vec<ScriptBit> = self.script_bits.splice(self.script_index + 1..self.script_index + 1, pass.clone()).collect();
-                    // println!("Removed items: {:?}", removed);
-                } else {
-                    let _removed: Vec<ScriptBit> = self.script_bits.splice(self.script_index + 1..self.script_index + 1, fail.clone().unwrap_or_default()).collect();
-                    // println!("Removed items: {:?}", removed);
-                }
+                let branch = if run_first_branch { pass.clone() } else { fail.clone().unwrap_or_default() };
+                self.spliced_elements += branch.len();
+                let _removed: Vec<ScriptBit> = self.script_bits.splice(self.script_index + 1..self.script_index + 1, branch).collect();
 
                 self.state.clone()
             }
